@@ -202,68 +202,7 @@ func runC04(c *Ctx) {
 	c.Check(strings.Join(kb, " ; ") == "byte((template.KeyUsage>>8)) ; byte(template.KeyUsage)", "R-WIDTH", "x509.buildExtensions", "both key-usage octets are encoded", w.Pos(be.Pos()), strings.Join(kb, " ; "))
 
 	// ---------------- time thresholds
-	ap := "z/encoding/asn1"
-	if fn := w.Fn(ap + ".outsideUTCRange"); fn != nil {
-		var cond string
-		for _, b := range fn.Blocks {
-			if ifi, ok := b.Instrs[len(b.Instrs)-1].(*ssa.If); ok {
-				cond = Expr(ifi.Cond)
-			}
-		}
-		ret := strings.Join(retExprs(fn, 0), " | ")
-		c.Check(cond == "((time.Time).Year(t)<1950)" && (ret == "φ(true|((time.Time).Year(t)>=2050))" || ret == "φ(((time.Time).Year(t)>=2050)|true)"), "R-VSET", "asn1.outsideUTCRange", "UTCTime is used exactly for 1950 <= year < 2050 (RFC 5280 4.1.2.5)", w.Pos(fn.Pos()), cond+" ; "+ret)
-	} else {
-		c.Undecided("R-VSET", "asn1.outsideUTCRange", "anchor", "-", "not found")
-	}
-	if fn := w.Fn(ap + ".appendUTCTime"); fn != nil {
-		yr := "(time.Time).Year(t)"
-		for _, in := range callsIn(fn, ap+".appendTwoDigits") {
-			a := Expr(callCommon(in).Args[1])
-			switch a {
-			case "(" + yr + "-1900)":
-				c.Cut(CutSpec{Rule: "R-VSET", Fn: fn, Label: "two-digit year = year-1900 only for year >= 1950", Target: isInstr(in), Cut: factExpr("ge", yr, "1950")})
-				c.Cut(CutSpec{Rule: "R-VSET", Fn: fn, Label: "two-digit year = year-1900 only for year < 2000", Target: isInstr(in), Cut: factExpr("lt", yr, "2000")})
-			case "(" + yr + "-2000)":
-				c.Cut(CutSpec{Rule: "R-VSET", Fn: fn, Label: "two-digit year = year-2000 only for year >= 2000", Target: isInstr(in), Cut: factExpr("ge", yr, "2000")})
-				c.Cut(CutSpec{Rule: "R-VSET", Fn: fn, Label: "two-digit year = year-2000 only for year < 2050", Target: isInstr(in), Cut: factExpr("lt", yr, "2050")})
-			default:
-				c.Fail("R-VSET", "asn1.appendUTCTime", "two-digit year is year-1900 or year-2000", w.InstrPos(in), a)
-			}
-		}
-	}
-	if fn := w.Fn(ap + ".parseUTCTime"); fn != nil {
-		var adj ssa.Instruction
-		for _, in := range callsIn(fn, "(time.Time).AddDate") {
-			adj = in
-			cc := callCommon(in)
-			c.Check(Expr(cc.Args[1]) == "-100" && Expr(cc.Args[2]) == "0" && Expr(cc.Args[3]) == "0", "R-VSET", "asn1.parseUTCTime", "the adjustment is exactly one century back", w.InstrPos(in), Expr(cc.Args[1]))
-			c.Cut(CutSpec{Rule: "R-VSET", Fn: fn, Label: "a two-digit year is moved to 19xx only if it parsed as >= 2050", Target: isInstr(in), Cut: func(f Fact) bool {
-				return f.Op == "ge" && f.Y != nil && Expr(f.Y) == "2050" && strings.HasPrefix(Expr(f.X), "(time.Time).Year(")
-			}})
-		}
-		if adj != nil {
-			c.Cut(CutSpec{Rule: "R-VSET", Fn: fn, Label: "a two-digit year that parsed as >= 2050 is always moved to 19xx", Target: SuccessReturn(1, nil), Barrier: func(in ssa.Instruction) bool { return in == adj }, Cut: func(f Fact) bool {
-				return f.Op == "lt" && f.Y != nil && Expr(f.Y) == "2050" && strings.HasPrefix(Expr(f.X), "(time.Time).Year(")
-			}})
-		} else {
-			c.Fail("R-VSET", "asn1.parseUTCTime", "century adjustment found", w.Pos(fn.Pos()), "")
-		}
-	}
-	nsel := 0
-	for _, fname := range []string{ap + ".makeBody", ap + ".makeField", ap + ".marshalField"} {
-		fn := w.Fn(fname)
-		if fn == nil {
-			continue
-		}
-		for _, in := range callsIn(fn, ap+".makeUTCTime") {
-			nsel++
-			c.Cut(CutSpec{Rule: "R-VSET", Fn: fn, Label: fmt.Sprintf("UTCTime encoder #%d is chosen only if the time is inside the UTCTime range", nsel), Target: isInstr(in), Cut: func(f Fact) bool {
-				cl := callOf(f.X)
-				return f.Op == "false" && cl != nil && strings.HasSuffix(calleeName(&cl.Call), ".outsideUTCRange")
-			}})
-		}
-	}
-	c.Check(nsel >= 1, "R-VSET", "asn1 marshal", "UTCTime encoder selection sites enumerated", "-", fmt.Sprint(nsel))
+	c.timeThresholds()
 
 	// ---------------- the TBS certificate
 	if fn := w.Fn(pkg + ".CreateCertificate"); fn != nil {
@@ -336,4 +275,72 @@ func renderStructVal(v ssa.Value, depth int) string {
 		}
 	}
 	return Expr(v)
+}
+
+// timeThresholds: the UTCTime/GeneralizedTime cut-over agrees between writer and reader (shared by C04 and C18).
+func (c *Ctx) timeThresholds() {
+	w := c.W
+	ap := "z/encoding/asn1"
+	if fn := w.Fn(ap + ".outsideUTCRange"); fn != nil {
+		var cond string
+		for _, b := range fn.Blocks {
+			if ifi, ok := b.Instrs[len(b.Instrs)-1].(*ssa.If); ok {
+				cond = Expr(ifi.Cond)
+			}
+		}
+		ret := strings.Join(retExprs(fn, 0), " | ")
+		c.Check(cond == "((time.Time).Year(t)<1950)" && (ret == "φ(true|((time.Time).Year(t)>=2050))" || ret == "φ(((time.Time).Year(t)>=2050)|true)"), "R-VSET", "asn1.outsideUTCRange", "UTCTime is used exactly for 1950 <= year < 2050 (RFC 5280 4.1.2.5)", w.Pos(fn.Pos()), cond+" ; "+ret)
+	} else {
+		c.Undecided("R-VSET", "asn1.outsideUTCRange", "anchor", "-", "not found")
+	}
+	if fn := w.Fn(ap + ".appendUTCTime"); fn != nil {
+		yr := "(time.Time).Year(t)"
+		for _, in := range callsIn(fn, ap+".appendTwoDigits") {
+			a := Expr(callCommon(in).Args[1])
+			switch a {
+			case "(" + yr + "-1900)":
+				c.Cut(CutSpec{Rule: "R-VSET", Fn: fn, Label: "two-digit year = year-1900 only for year >= 1950", Target: isInstr(in), Cut: factExpr("ge", yr, "1950")})
+				c.Cut(CutSpec{Rule: "R-VSET", Fn: fn, Label: "two-digit year = year-1900 only for year < 2000", Target: isInstr(in), Cut: factExpr("lt", yr, "2000")})
+			case "(" + yr + "-2000)":
+				c.Cut(CutSpec{Rule: "R-VSET", Fn: fn, Label: "two-digit year = year-2000 only for year >= 2000", Target: isInstr(in), Cut: factExpr("ge", yr, "2000")})
+				c.Cut(CutSpec{Rule: "R-VSET", Fn: fn, Label: "two-digit year = year-2000 only for year < 2050", Target: isInstr(in), Cut: factExpr("lt", yr, "2050")})
+			default:
+				c.Fail("R-VSET", "asn1.appendUTCTime", "two-digit year is year-1900 or year-2000", w.InstrPos(in), a)
+			}
+		}
+	}
+	if fn := w.Fn(ap + ".parseUTCTime"); fn != nil {
+		var adj ssa.Instruction
+		for _, in := range callsIn(fn, "(time.Time).AddDate") {
+			adj = in
+			cc := callCommon(in)
+			c.Check(Expr(cc.Args[1]) == "-100" && Expr(cc.Args[2]) == "0" && Expr(cc.Args[3]) == "0", "R-VSET", "asn1.parseUTCTime", "the adjustment is exactly one century back", w.InstrPos(in), Expr(cc.Args[1]))
+			c.Cut(CutSpec{Rule: "R-VSET", Fn: fn, Label: "a two-digit year is moved to 19xx only if it parsed as >= 2050", Target: isInstr(in), Cut: func(f Fact) bool {
+				return f.Op == "ge" && f.Y != nil && Expr(f.Y) == "2050" && strings.HasPrefix(Expr(f.X), "(time.Time).Year(")
+			}})
+		}
+		if adj != nil {
+			c.Cut(CutSpec{Rule: "R-VSET", Fn: fn, Label: "a two-digit year that parsed as >= 2050 is always moved to 19xx", Target: SuccessReturn(1, nil), Barrier: func(in ssa.Instruction) bool { return in == adj }, Cut: func(f Fact) bool {
+				return f.Op == "lt" && f.Y != nil && Expr(f.Y) == "2050" && strings.HasPrefix(Expr(f.X), "(time.Time).Year(")
+			}})
+		} else {
+			c.Fail("R-VSET", "asn1.parseUTCTime", "century adjustment found", w.Pos(fn.Pos()), "")
+		}
+	}
+	nsel := 0
+	for _, fname := range []string{ap + ".makeBody", ap + ".makeField", ap + ".marshalField"} {
+		fn := w.Fn(fname)
+		if fn == nil {
+			continue
+		}
+		for _, in := range callsIn(fn, ap+".makeUTCTime") {
+			nsel++
+			c.Cut(CutSpec{Rule: "R-VSET", Fn: fn, Label: fmt.Sprintf("UTCTime encoder #%d is chosen only if the time is inside the UTCTime range", nsel), Target: isInstr(in), Cut: func(f Fact) bool {
+				cl := callOf(f.X)
+				return f.Op == "false" && cl != nil && strings.HasSuffix(calleeName(&cl.Call), ".outsideUTCRange")
+			}})
+		}
+	}
+	c.Check(nsel >= 1, "R-VSET", "asn1 marshal", "UTCTime encoder selection sites enumerated", "-", fmt.Sprint(nsel))
+
 }
